@@ -139,6 +139,9 @@ func (st *sessionTags) snapshot(tag string) []map[string]any {
 
 func runScenario(sc scenario) {
 	evals.Add(1)
+	canary := rig.StartCanary()
+	defer canary.Stop()
+	scStart := time.Now()
 	r := rand.New(rand.NewSource(sc.Seed))
 	desc := rig.MakeDesc(sc.Formats)
 	tags := &sessionTags{connTag: map[*gortsplib.ServerConn]string{}, sessTag: map[*gortsplib.ServerSession]string{},
@@ -480,7 +483,23 @@ func runScenario(sc scenario) {
 	rmu.Unlock()
 	if chatty != nil {
 		if err := chatty.died(); err != nil {
-			fail("chatty-reader/connection-ended", fmt.Sprintf("the raw reader's connection ended during the load: %v (%d requests sent, %d answered)", err, chatty.sent.Load(), chatty.answered.Load()), nil)
+			tags.mu.Lock()
+			cl := append([]string(nil), tags.closes...)
+			tags.mu.Unlock()
+			timedOut := false
+			for _, c := range cl {
+				if strings.Contains(c, "timeout") || strings.Contains(c, "deadline") {
+					timedOut = true
+				}
+			}
+			if timedOut || canary.WorstSince(scStart) > 500*time.Millisecond {
+				// the server gave up writing to a peer that did not read fast enough (its
+				// WriteTimeout), or the machine starved this process: not a verdict on the stream
+				run.Inconclusive("chatty-reader-ended-by-server-timeout-or-starvation")
+			} else {
+				fail("chatty-reader/connection-ended", fmt.Sprintf("the raw reader's connection ended during the load: %v (%d requests sent, %d answered)", err, chatty.sent.Load(), chatty.answered.Load()),
+					map[string]any{"server_closes": cl})
+			}
 		} else {
 			drainRds = append(drainRds, chatty.Rd)
 		}
@@ -508,6 +527,7 @@ func runScenario(sc scenario) {
 		// hop 1 is drained through the same sentinels
 		drainRds = append(drainRds, ingest)
 	}
+	undrained := map[*rig.Reader]bool{}
 	if len(drainRds) > 0 {
 		for i, f := range src.Flows {
 			dr := rand.New(rand.NewSource(sc.Seed*7 + int64(i)))
@@ -517,15 +537,38 @@ func runScenario(sc scenario) {
 				// when the drain completes are forwarded later and must not count as load
 				t2.Flow(f.Media, f.PT).MarkSentinelFrom(first)
 			}
-			stuck := rig.Drain(f, dr, 200, write(f), drainRds, 3000, 2*time.Millisecond)
+			drainStart := time.Now()
+			stuck, slow, rounds := rig.DrainProgress(f, dr, 200, write(f), drainRds, 3000, 2*time.Millisecond, 12)
+			run.Max("drain-rounds-needed", int64(rounds))
+			if rounds > 1 {
+				run.Count("drains-that-needed-more-than-one-round", 1)
+			}
+			for _, rd := range slow {
+				// still working through a backlog after 12 rounds: no verdict, and no tail demanded
+				run.Inconclusive("drain-still-progressing-after-12-rounds")
+				undrained[rd] = true
+			}
+			if len(stuck) > 0 && canary.WorstSince(drainStart) > 500*time.Millisecond {
+				// the machine did not schedule a 5 ms timer for more than half a second during the
+				// drain: "no delivery during a whole round" says nothing
+				run.Inconclusive("drain-without-progress-on-a-starved-machine")
+				for _, rd := range stuck {
+					undrained[rd] = true
+				}
+				stuck = nil
+			}
 			for _, rd := range stuck {
 				fail("missing-packets/drain-never-completed",
-					fmt.Sprintf("reader %s never received any of 3000 sentinel packets written to media %d format %d after the load stopped", rd.Name, f.Media, f.PT),
-					map[string]any{"reader": rd.Name})
+					fmt.Sprintf("reader %s received nothing at all while %d sentinel packets were written to media %d format %d after the load stopped (%d rounds; no sentinel ever arrived)", rd.Name, 3000, f.Media, f.PT, rounds),
+					map[string]any{"reader": rd.Name, "rounds": rounds, "server_sessions": tags.snapshot("verif:" + rd.Name)})
 			}
 		}
 		for _, rd := range drainRds {
-			rd.WindowClose("drain")
+			if undrained[rd] {
+				rd.WindowClose("close") // not drained: what is still on its way is not demanded
+			} else {
+				rd.WindowClose("drain")
+			}
 		}
 	}
 
@@ -536,7 +579,7 @@ func runScenario(sc scenario) {
 		if rc.closed || rc.pc.C == nil {
 			continue
 		}
-		d := map[string]any{"server_sessions": tags.snapshot(rc.name), "playing": rc.playing}
+		d := map[string]any{"server_sessions": tags.snapshot("verif:" + rc.name), "playing": rc.playing}
 		if err := rc.pc.Died(); err != nil {
 			d["client_error"] = err.Error()
 		} else if x := rc.pc.C.Stats(); x != nil {
